@@ -439,8 +439,10 @@ def render_fns(i, desc):
     cm = c["m"]
     form = c.get("form", 0)
     kmethods = "".join(", " + p for p in kparts)
-    schain = ssrc + "".join(sparts)
-    achain = (asrc + "".join(aparts)) if flags["has_alt"] else None
+    # the source expression is counted as well (evaluated exactly once on both sides)
+    ksrc = "ac(%s)" % ksrc
+    schain = "ac(%s)" % ssrc + "".join(sparts)
+    achain = ("ac(%s)" % asrc + "".join(aparts)) if flags["has_alt"] else None
     pk, ps = closure("pred", item_ty, form, False)
     pkr, psr = closure("pred", item_ty, form, True)
     fold_k = "|acc, x| acc.wrapping_mul(31).wrapping_add(x.h())"
